@@ -516,9 +516,23 @@ def run(rn, mod, hs, args, t_start):
             f"not realised {witness['not_realised']}, violated {witness['violated']})")
     rn.witness = witness
 
+    # thorough tier = exploration under a resource budget: a query that hits the wall / memory cap is *not explored*
+    # (reported as such, listed in the evidence, never counted as discharged); more than a handful of them means
+    # something systematic is wrong and stays inconclusive.  The quick tier tolerates none.
+    unexplored = []
+    if rn.tier == "thorough" and not violations:
+        res = [(h, r) for h, r in inconclusive
+               if r["verdict"] == "inconclusive" and r["why"].startswith(("timeout after", "out of memory", "CBMC error / out of memory"))]
+        if res and len(res) <= max(3, len(hs) // 50):
+            unexplored = res
+            inconclusive = [(h, r) for h, r in inconclusive if not any(h is h2 for h2, _ in res)]
+    rn.unexplored = unexplored
+
     wall = time.time() - t_start
     if not args.no_evidence:
         write_evidence(rn, mod, hs, results, violations, findings_hit, inconclusive, replays_done, wall)
+    for h, r in unexplored:
+        log(f"UNEXPLORED property={pid} harness={h.name}: {r['why'][:200]} (resource cap of the thorough tier; not counted as discharged)")
 
     seen = set()
     for kf, h, r in findings_hit:
@@ -545,7 +559,8 @@ def run(rn, mod, hs, args, t_start):
                     pass
         return 2
     npass = sum(1 for r in results.values() if r["verdict"] == "pass")
-    log(f"[{pid}] OK: {npass} of {len(hs)} queries discharged, {len(findings_hit)} hit listed known findings, 0 new violations, wall {wall:.0f}s")
+    log(f"[{pid}] OK: {npass} of {len(hs)} queries discharged, {len(unexplored)} not explored (resource cap), "
+        f"{len(findings_hit)} hit listed known findings, 0 new violations, wall {wall:.0f}s")
     return 0
 
 
@@ -620,6 +635,7 @@ def write_evidence(rn, mod, hs, results, violations, findings_hit, inconclusive,
             "outside_bounds": meta.get("outside", []),
             "engine": "Kani 0.68.0 / CBMC 6.11.0 (cadical), unwinding assertions on",
             "inconclusive": [{"harness": h.name, "why": r["why"][:200]} for h, r in inconclusive],
+            "unexplored_resource_cap": [{"harness": h.name, "why": r["why"][:200]} for h, r in getattr(rn, "unexplored", [])],
             "known_findings_hit": sorted({k["id"] for k, _, _ in findings_hit}),
             "witness_traces_replayed_natively": getattr(rn, "witness", {}),
             "configs": [h.desc for h in hs][:400],
